@@ -23,6 +23,32 @@ TRUSTED = ["coq/Model/Debugger.v", "coq/Model/Session.v"]
 KINDS = dc.RUN_KINDS + ["goto", "refused", "readonly"]
 
 
+def known_replays(ctx, findings):
+    """D60: a breakpoint named with its file, `break <path>:<n>`, is set on that line and stops `continue` there."""
+    out = []
+    for e in findings:
+        if e["id"] != "D60":
+            continue
+        ses = e["session"]
+        rs = dc.RealSession(ses["program"], {"big_stack": False, "init": [], "warn_return_on": True})
+        bad = None
+        if not rs.ok:
+            bad = "the program of the finding no longer loads"
+        else:
+            shown = ""
+            for line in ses["commands"]:
+                r = rs.command(line)
+                shown += r["shell"]
+                if r["exc"]:
+                    bad = "the shell raised %s on %r" % (r["exc"], line)
+                    break
+            if not bad and rs.shell.debugger.vm.pc != ses["stops_at_pc"]:
+                bad = "after %r the debugger stands at instruction %d, the breakpoint is on instruction %d; output %r" % (
+                    ses["commands"], rs.shell.debugger.vm.pc, ses["stops_at_pc"], shown[-160:])
+        out.append((e, bad is not None, bad))
+    return out
+
+
 def correspondence(ctx, model_available=True):
     quick = ctx.tier == "quick"
     rng = ctx.rng
